@@ -16,11 +16,19 @@ fn usage() -> ! {
     std::process::exit(2)
 }
 
-fn dispatch_check(id: &str) -> Option<fn(&Case, &mut Local) -> Result<(), driver::Fail>> {
+type CheckFn = fn(&Case, &mut Local) -> Result<(), driver::Fail>;
+type RunFn = fn(Tier, u64) -> i32;
+
+fn table(id: &str) -> Option<(RunFn, CheckFn)> {
     match id {
-        "C01" => Some(props::c01::check_case),
+        "C01" => Some((props::c01::run, props::c01::check_case)),
+        "C02" => Some((props::c02::run, props::c02::check_case)),
+        "C03" => Some((props::c03::run, props::c03::check_case)),
         _ => None,
     }
+}
+fn dispatch_check(id: &str) -> Option<CheckFn> {
+    table(id).map(|t| t.1)
 }
 
 fn main() {
@@ -37,9 +45,9 @@ fn main() {
                 _ => Tier::Quick,
             };
             let seed = seed_from_env();
-            let code = match id {
-                "C01" => props::c01::run(tier, seed),
-                _ => {
+            let code = match table(id) {
+                Some((run, _)) => run(tier, seed),
+                None => {
                     eprintln!("unknown property {}", id);
                     2
                 }
